@@ -669,7 +669,12 @@ def r6(ctx):
         chain.append(src(t_.slice))
         t_ = t_.value
     pos = chain[-2] if len(chain) >= 2 else pos
-    atom = lambda x: None if isinstance(x, ast.Compare) else {pos: 'p', f'int({pos})': 'p', 'self.region_start': 's', 'self.region_end': 'e'}.get(src(x))
+    def atom(x):
+        if isinstance(x, ast.Compare):
+            return None
+        if isinstance(x, ast.Call) and isinstance(x.func, ast.Name) and x.func.id == 'int' and len(x.args) == 1 and isinstance(x.args[0], ast.Name):
+            return 'p'              # the position as parsed from the record (whatever the text field is called)
+        return {pos: 'p', 'self.region_start': 's', 'self.region_end': 'e'}.get(src(x))
     bad, n = None, 0
     for has_s in (True, False):
         for has_e in (True, False):
